@@ -220,24 +220,32 @@ def method_shape(name):
     return binarylike, variants
 
 
+_SCEN_CACHE = {}
+
+
 def scenarios(name):
+    if name in _SCEN_CACHE:
+        return _SCEN_CACHE[name]
     shape = method_shape(name)
     if shape is None:
         return []
     binarylike, variants = shape
     out = []
     for extras in variants:
-        if binarylike:
-            for other in ("plain", "proxy"):
-                for mode in ("accept", "decline", "raise", "subclass"):
-                    out.append(Scenario(mode, other, extras))
-                if name not in object.__dict__:
-                    out.append(Scenario("missing", other, extras))
-        else:
-            for mode in ("accept", "decline", "raise"):
-                out.append(Scenario(mode, None, extras))
-            if name not in object.__dict__:
-                out.append(Scenario("missing", None, extras))
+        others = ("plain", "proxy") if binarylike else (None,)
+        for other in others:
+            modes = ["accept", "decline", "raise"] + (["subclass"] if binarylike else [])
+            # the receiver's class lacking a dunder: the method's own name, and whatever the real method was seen
+            # to call first (a builtin / operator then walks on, a dunder called by hand raises AttributeError)
+            lacking = [name]
+            seen = observe(real_function(name), name, Scenario("accept", other, extras))[0]
+            for d, recv, _ in seen:
+                if recv == "S" and d not in lacking:
+                    lacking.append(d)
+            modes += ["missing:" + d for d in lacking if d not in object.__dict__ and d in ALL_DUNDERS]
+            for mode in modes:
+                out.append(Scenario(mode, other, extras))
+    _SCEN_CACHE[name] = out
     return out
 
 
@@ -245,7 +253,7 @@ def observe(call, name, sc):
     """Run `call(self_proxy, *args)` in one scenario; -> (log, outcome, printed)."""
     log = Log()
     mode = sc.mode if sc.mode in ("accept", "decline", "raise") else "accept"
-    missing = (name,) if sc.mode == "missing" else ()
+    missing = (sc.mode.split(":", 1)[1],) if sc.mode.startswith("missing:") else ()
     cls_s = make_class("RecS", log, mode, missing=missing)
     cls_o = make_class("RecO", log, mode, base=cls_s if sc.mode == "subclass" else None)
     cls_k = make_class("RecK", log, mode)
